@@ -1083,11 +1083,13 @@ class Engine:
                 sub.locals[p] = self.ev(d, sub)
         self._ctx = getattr(self, "_ctx", ()) + (id(node),)
         self._owner_stack.append(owner)
+        self._inline_depth = getattr(self, "_inline_depth", 0) + 1
         try:
             outs = self.run(fdef.body, sub)
         finally:
             self._ctx = self._ctx[:-1]
             self._owner_stack.pop()
+            self._inline_depth -= 1
         raises = [(s_, fl, v_) for s_, fl, v_ in outs if fl == "raise"]
         if len(outs) == 1 and len(raises) == 1:
             st.heap, st.pc, st.ghost = raises[0][0].heap, raises[0][0].pc, raises[0][0].ghost
@@ -1113,10 +1115,24 @@ class Engine:
         if getattr(c, "raises", None) is not None:
             exc, cond = c.raises(view)
             if self.decide(st, ("raises", getattr(self, "_ctx", ()), id(node), c.name), cond):
+                if getattr(c, "exc_ensures", None):        # a raising callee may have changed state: havoc its frame, assume its exceptional postcondition
+                    for m_ in c.modifies:
+                        field, kind, part = m_[:3]
+                        old = st.h(field, kind, part)
+                        whole = recv is None or (len(m_) == 4 and m_[3] == "all")
+                        st.set_h(field, kind, part, fresh(f"H_{field}", old.sort()) if whole else z3.Store(old, recv.e, fresh(f"{field}_post", old.sort().range())))
+                    vx = View(self, pre, st, recv, amap, None)
+                    for e in c.exc_ensures:
+                        g = e(vx)
+                        for gg in g if isinstance(g, (list, tuple)) else [g]:
+                            if gg is not None:
+                                st.assume(gg)
                 raise PyRaise(exc)
-        for field, kind, part in c.modifies:
+        for m_ in c.modifies:
+            field, kind, part = m_[:3]
             old = st.h(field, kind, part)
-            st.set_h(field, kind, part, fresh(f"H_{field}", old.sort()) if recv is None else z3.Store(old, recv.e, fresh(f"{field}_post", old.sort().range())))
+            whole = recv is None or (len(m_) == 4 and m_[3] == "all")     # "all": the callee may modify this field of OTHER objects too
+            st.set_h(field, kind, part, fresh(f"H_{field}", old.sort()) if whole else z3.Store(old, recv.e, fresh(f"{field}_post", old.sort().range())))
         res = c.result(View(self, pre, st, recv, amap)) if c.result else VNone()
         view2 = View(self, pre, st, recv, amap, res)
         for e in c.ensures:
@@ -1148,6 +1164,8 @@ class Engine:
         except PyRaise as r:
             return [(s, "raise", r.exc)]
         except ForkRequest as fr:
+            if getattr(self, "_inline_depth", 0) > 0:
+                raise                      # inside an inlined callee: the fork is taken at the caller's statement
             del self.obligations[mark:]
             outs = []
             for choice in (True, False):
@@ -1310,6 +1328,8 @@ class Engine:
             self.dropped.append("if-guarding-only-dropped-calls: " + ast.unparse(n.test)[:50])
             return [(st, "next", None)]
         c = self.truth(self.ev(n.test, st))
+        if getattr(self, "_inline_depth", 0) > 0:
+            return self.run(n.body if self.decide(st, ("if", getattr(self, "_ctx", ()), id(n)), c) else n.orelse, st)
         outs = []
         for cond, body in ((c, n.body), (z3.Not(c), n.orelse)):
             s = st.copy().assume(cond)
@@ -1500,6 +1520,7 @@ class Engine:
         n0 = len(self.obligations)
         mark = len(self.obligations)
         self._prefix = fid + "/"
+        self._inline_depth = 0
         self._owner_stack = [owner]
         outs = self.run(fdef.body, st)
         outs = [(s, "return" if fl == "next" else fl, VNone() if (fl == "next" or v is None) and fl != "raise" else v) for s, fl, v in outs]
